@@ -94,6 +94,8 @@ type World struct {
 	Opers    []*Oper
 	Assets   []*Asset
 	Native   *Asset
+	// NativeStaking: the chain's own token was registered as a staking asset of the dogfood AVS in this history
+	NativeStaking bool
 	LzNonce  uint64
 	Steps    []*Step
 	Monitors []Monitor
